@@ -39,15 +39,15 @@ type partioCase struct {
 	Sectors uint64 `json:"size_sectors"`
 	LSS     int    `json:"lss"`
 	PSS     int    `json:"pss"`
-	LenMode string `json:"reader_len"`            // size-1 size size+1 zero
-	Chunk   string `json:"chunk"`                 // whole one seven 513 dataeof
-	Op      string `json:"op"`                    // write | copy
+	LenMode string `json:"reader_len"` // size-1 size size+1 zero
+	Chunk   string `json:"chunk"`      // whole one seven 513 dataeof
+	Op      string `json:"op"`         // write | copy
 	// Via: "" = the table is written, then read back from the disk by GetPartitionTable (partitions as decoded);
 	// "inmem" = Disk.Partition(table): the Disk keeps the caller's own table object; "unordered" = as inmem with a second
 	// partition (index 2) listed BEFORE the partition under test (index 1) in the table's slice; "inplace" = the caller's table
 	// object is edited in place (partitions renumbered) after the Disk has already served look-ups from it
-	Via string `json:"via,omitempty"`
-	CopyTo  string `json:"copy_target,omitempty"` // same bigger smaller
+	Via    string `json:"via,omitempty"`
+	CopyTo string `json:"copy_target,omitempty"` // same bigger smaller
 }
 
 // sparseByte: position-dependent content that is zero almost everywhere on huge ranges (so that the sparse
